@@ -44,6 +44,13 @@ type PoolSUT struct {
 	// FileTag reads the durable layer as ground truth: which tag does this
 	// file of the current tree hold (ok=false: not a complete parameter file).
 	FileTag func(f DiskFile) (tag uint64, ok bool)
+	// Damage, if set, models on-disk damage that leaves a well-formed record:
+	// it returns the content of parameter file f with ALL bytes of one inner
+	// number field (chosen by choice) set to zero - a bad sector / sparse
+	// extent after a crash. ok=false: nothing to damage. The engine applies it
+	// to one file of the durable layer and crashes the node in the same
+	// instant, so the record is first seen by the next start-up.
+	Damage func(f DiskFile, choice int) (damaged []byte, what string, ok bool)
 	// Fine: storage calls are scheduling points of their own (allowed only
 	// when the persistence layer holds no mutex across them).
 	Fine bool
@@ -514,6 +521,9 @@ func RunPoolScenario(r *verifsim.Run, sut PoolSUT) {
 		if s.fullOn {
 			kinds = append(kinds, kind{"full", 1})
 		}
+		if s.crashesOn && s.sut.Damage != nil && booted {
+			kinds = append(kinds, kind{"damage", 1})
+		}
 		w := make([]int, len(kinds))
 		for i, k := range kinds {
 			w[i] = k.w
@@ -550,6 +560,25 @@ func RunPoolScenario(r *verifsim.Run, sut PoolSUT) {
 			s.disk.Crash()
 			r.Fault("crash-at-quiescence")
 			r.Logf("crash")
+		case "damage":
+			var files []DiskFile
+			for _, f := range s.disk.CurrentFiles() {
+				if _, ok := s.sut.FileTag(f); ok {
+					files = append(files, f)
+				}
+			}
+			if len(files) == 0 {
+				r.Logf("damage: no complete parameter file on disk")
+				break
+			}
+			f := files[tp.Choose("damaged-file", len(files))]
+			tag, _ := s.sut.FileTag(f)
+			if data, what, ok := s.sut.Damage(f, tp.Choose("damaged-field", 16)); ok {
+				s.disk.PutCurrent(f.Dir, f.Name, data)
+				s.disk.Crash()
+				r.Fault("disk-field-zeroed-then-crash")
+				r.Logf("file of tag %d damaged on disk (%s zeroed, record still well-formed), crash", tag, what)
+			}
 		case "full":
 			if s.isFull {
 				s.disk.ClearFull()
